@@ -7,6 +7,14 @@ GT = "./internal/mysql/gtids"
 OPT = "./internal/app/optimization"
 
 REGISTRY = {
+    "C02": dict(
+        level="exploration",
+        units=[dict(pkg=APP, test="TestVerifC02", quick=640, thorough=20000, shards_quick=16, shards_thorough=16)],
+    ),
+    "SMOKE": dict(
+        level="exploration",
+        units=[dict(pkg=APP, test="TestVerifSimSmoke", quick=20, thorough=200)],
+    ),
     "C03": dict(
         level="exploration",
         units=[
